@@ -167,7 +167,28 @@ ErrorHasContext ==
   (s.status = "err" /\ s.err.kind \notin {"MissingGlobalVariable", "ExpectedList", "Unsupported"}) =>
      \E i \in 1..Len(s.err.chain) : s.err.chain[i].ck = "stmt"
 
+\* (C16) the effective globals: supplied values are never overridden, defaults apply exactly when nothing was
+\* supplied, list-typed declarations hold lists; failures of the check are exactly the documented ones
+Decls == Run.prog.globals
+Supplied == SuppliedGlobals(Run)
+GlobalsRule ==
+  /\ (s.ph # "init" /\ s.steps >= 1 /\ ~(s.status = "err" /\ s.steps = 1)) =>
+        /\ \A n \in DOMAIN Supplied : n \in DOMAIN s.glob /\ s.glob[n] = Supplied[n]
+        /\ \A i \in 1..Len(Decls) :
+             LET d == Decls[i] IN
+             /\ d.name \in DOMAIN s.glob
+             /\ (d.name \notin DOMAIN Supplied => d.has_default /\ s.glob[d.name] = VStr(d.default))
+             /\ (d.q \in {"star", "plus"} /\ d.name \in DOMAIN Supplied => s.glob[d.name].t = "list")
+  /\ (s.status = "err" /\ s.steps = 1) =>
+        \/ s.err.kind = "MissingGlobalVariable"
+             /\ \E i \in 1..Len(Decls) : Decls[i].name \notin DOMAIN Supplied /\ ~Decls[i].has_default
+        \/ s.err.kind = "ExpectedList"
+             /\ \E i \in 1..Len(Decls) : Decls[i].name \in DOMAIN Supplied /\ Decls[i].q \in {"star", "plus"}
+                                          /\ Supplied[Decls[i].name].t # "list"
+
 \* ------------------------------------------------------------ action properties
+\* (C16) globals are read-only during a run
+GlobalsReadOnly == [][(s.ph # "init" /\ ri' = ri) => s'.glob = s.glob]_vars
 \* (C09) nodes, edges and attribute values only grow; values never change (single assignment)
 AttrsStableStep ==
   (s.status = "run" /\ s'.status # "err" /\ ri' = ri) =>
